@@ -37,6 +37,10 @@ CHECKS = {
          "Every encode returns Ok or the documented Err variant (UnsupportedCharacter with the character, LengthTooLarge at and above 2^31, SerializingTransientConstructor, UnknownFieldReferenceInEvolutionStep); no unwind anywhere in the enumerated space."),
  "C15": ("model_checking", "6 C15", "exhaustive enumeration of (type, value) x six sinks on the same instance; op-sequence exploration on the three sources",
          "Bytes through Vec, BytesMut, serialize_to_bytes, serialize_to_byte_vec and a recording user output are identical and SizeCalculator equals their length, for every value of the universes."),
+ "C18": ("model_checking", "6 C18", "stateless exploration of all interleavings (shuttle DFS scheduler, no preemption bound) of small thread bodies on the real code with scheduler-visible metadata statics and hook points; every call sequence up to a depth in fresh processes",
+         "No interleaving of 2 (thorough: 3) threads doing first-use / steady-state encode and decode, under three hook granularities, and no sequence of up to 3 (4) prior calls changes what a call returns: each result equals the result of the call alone and the reference model's bytes. 2.5 M schedules in the quick tier, none capped."),
+ "C19": ("exploration", "6 C19", "enumeration of all client programs of a grammar over the object-table API under #![forbid(unsafe_code)] (compiler verdict, then Miri on every accepted program); every short input through the unsafe decode paths natively and under Miri",
+         "Every program of the grammar that the compiler accepts is executed under Miri: accepted => no undefined behaviour (the programs that are accepted and UB are the recorded known finding about State::store_ref). 3 367 (quick) inputs through 12 array / byte-vector decode paths and a reference-lookup codec run under Miri without UB and with output identical to the native run."),
 }
 
 NOT_YET = {
@@ -59,7 +63,7 @@ def main():
             "thorough_cmd": f"./check {pid} --tier thorough",
             "evidence_file": f"/verif/evidence/{pid}.json",
             "replay_cmd_template": f"./check {pid} --replay {{path}}",
-            "engine": "vcheck",
+            "engine": "witness (rustc + Miri)" if pid == "C19" else "vcheck",
             "level_claimed": {"category": level, "text": text, "design_ref": f"DESIGN.md section {ref}"},
             "level_note": NOTE,
             "technique": technique,
@@ -78,7 +82,11 @@ def main():
             "add_only": True,
         },
         "engines": [
-            {"name": "vcheck", "path": "/verif/harness/vcheck", "serves_properties": sorted(CHECKS),
+            {"name": "vsched", "path": "/verif/sched/vsched", "serves_properties": ["C18"],
+             "kind_free_text": "shuttle DFS scheduler over real desert code; derive-emitted statics go through a path crate named lazy_static that re-exports shuttle::lazy_static"},
+            {"name": "witness (rustc + Miri)", "path": "/verif/witness", "serves_properties": ["C19"],
+             "kind_free_text": "generated safe-only client programs: cargo check verdict, then cargo +nightly miri run; unsafe decode paths swept under Miri"},
+            {"name": "vcheck", "path": "/verif/harness/vcheck", "serves_properties": sorted(c for c in CHECKS if c != "C19"),
              "kind_free_text": "explicit bounded enumeration of inputs / programs / histories / faults executed on the real library (path dependency on /repo), compared with an independent reference model (harness/refmodel)"},
         ],
         "checks": checks,
